@@ -9,6 +9,12 @@ struct AssignmentTracker<'a> {
     assigned: Vec<HashSet<&'a str>>,
     #[cfg(feature = "multi_template")]
     for_closure: bool,
+    /// blocks that are called through `self.<name>()` somewhere in the template
+    #[cfg(feature = "multi_template")]
+    called_blocks: HashSet<&'a str>,
+    /// blocks whose bodies are (also) walked outside of the constructs around them
+    #[cfg(feature = "multi_template")]
+    detached_blocks: HashSet<&'a str>,
 }
 
 impl<'a> AssignmentTracker<'a> {
@@ -46,6 +52,10 @@ pub fn find_macro_closure<'a>(m: &ast::Macro<'a>) -> HashSet<&'a str> {
         assigned: vec![Default::default()],
         #[cfg(feature = "multi_template")]
         for_closure: true,
+        #[cfg(feature = "multi_template")]
+        called_blocks: HashSet::new(),
+        #[cfg(feature = "multi_template")]
+        detached_blocks: HashSet::new(),
     };
     tracker_visit_macro(m, &mut state, false);
     state.out
@@ -63,8 +73,23 @@ pub fn find_undeclared(t: &ast::Stmt<'_>, track_nested: bool) -> HashSet<String>
         assigned: vec![Default::default()],
         #[cfg(feature = "multi_template")]
         for_closure: false,
+        #[cfg(feature = "multi_template")]
+        called_blocks: HashSet::new(),
+        #[cfg(feature = "multi_template")]
+        detached_blocks: HashSet::new(),
     };
     track_walk(t, &mut state);
+    // a block that is called through `self.<name>()` renders a second time where the
+    // call stands: outside of the constructs around the block, possibly before the
+    // assignments in front of it and with a macro's closure in place of the template's
+    // variables.  Its body is walked once more without any assignment in effect.
+    #[cfg(feature = "multi_template")]
+    {
+        if !state.called_blocks.is_empty() {
+            state.detached_blocks = std::mem::take(&mut state.called_blocks);
+            track_walk(t, &mut state);
+        }
+    }
     if let Some(nested) = state.nested_out {
         nested
     } else {
@@ -201,7 +226,10 @@ fn tracker_visit_expr<'a>(expr: &ast::Expr<'a>, state: &mut AssignmentTracker<'a
                 #[cfg(feature = "multi_template")]
                 ast::CallType::Function("super") if !state.for_closure => {}
                 #[cfg(feature = "multi_template")]
-                ast::CallType::Block(_) if !state.for_closure => return,
+                ast::CallType::Block(name) if !state.for_closure => {
+                    state.called_blocks.insert(name);
+                    return;
+                }
                 _ => tracker_visit_expr(&expr.expr, state),
             }
             expr.args
@@ -292,6 +320,11 @@ fn track_walk<'a>(node: &ast::Stmt<'a>, state: &mut AssignmentTracker<'a>) {
         }
         #[cfg(feature = "multi_template")]
         ast::Stmt::Block(stmt) => {
+            if state.detached_blocks.contains(stmt.name) {
+                let assigned = std::mem::replace(&mut state.assigned, vec![Default::default()]);
+                stmt.body.iter().for_each(|x| track_walk(x, state));
+                state.assigned = assigned;
+            }
             state.push();
             stmt.body.iter().for_each(|x| track_walk(x, state));
             state.pop();
